@@ -147,8 +147,12 @@ class C14(Check):
         SM.install(ctx)
 
     def contracts(self):
-        return [SendMessageC14(True, True, id_mode="given"), SendMessageC14(True, False, id_mode="given"),
-                SendMessageC14(False, True, id_mode="given")]
+        cs = [SendMessageC14(True, True, id_mode="given"), SendMessageC14(True, False, id_mode="given"),
+              SendMessageC14(False, True, id_mode="given")]
+        if self.tier == "thorough":
+            cs += [SendMessageC14(True, True, id_mode="uuid"), SendMessageC14(True, False, id_mode="uuid"),
+                   SendMessageC14(False, True, id_mode="uuid"), SendMessageC14(False, False, id_mode="given")]
+        return cs
 
     def loop_invariants(self):
         return {(AWAIT_KEY, 0): SM.await_loop_invariant("C14")}
